@@ -105,8 +105,10 @@ Lemma xlsx_skip1 : forall rels e rest st, junk_ok_xlsx e = true ->
   xlsx_wb_run rels (e :: rest) XMain st = xlsx_wb_run rels rest XMain st.
 Proof.
   intros rels e rest st H. destruct e as [n a|n|s|s|]; cbn [xlsx_wb_run]; try reflexivity.
-  - cbn in H. apply negb_true_iff in H. apply orb_false_iff in H. destruct H as [H H3].
-    apply orb_false_iff in H. destruct H as [H1 H2]. rewrite H1, H2, H3. reflexivity.
+  - cbn in H. apply andb_true_iff in H. destruct H as [H H3].
+    apply negb_true_iff in H. apply orb_false_iff in H. destruct H as [H1 H2].
+    rewrite H1, H2. destruct (str_eqb (local_name n) k_workbookPr); [|reflexivity].
+    cbn in H3. apply negb_true_iff in H3. rewrite H3. reflexivity.
   - cbn in H. apply negb_true_iff in H. rewrite H. reflexivity.
 Qed.
 
@@ -365,6 +367,13 @@ Proof.
   rewrite (get_attribute_free a_date1904 extra _ H). destruct t, b; reflexivity.
 Qed.
 
+Lemma has_date1904_enc : forall extra t b, attr_free [a_date1904] extra = true ->
+  has_date1904 (extra ++ [(a_date1904, bool_text t b)]) = true.
+Proof.
+  intros extra t b H. unfold has_date1904.
+  rewrite (get_attribute_free a_date1904 extra _ H). destruct t, b; reflexivity.
+Qed.
+
 Lemma local_fixed : forall pfx l, no_colon pfx = true -> no_colon l = true ->
   local_name (qn pfx l) = l.
 Proof. intros. apply local_name_qn; assumption. Qed.
@@ -412,6 +421,7 @@ Proof.
     - cbn [app xlsx_wb_run]. rewrite (Hloc k_workbookPr eq_refl).
       change (str_eqb k_workbookPr k_sheet) with false.
       change (str_eqb k_workbookPr k_workbookPr) with true. cbn iota.
+      rewrite (has_date1904_enc (xc_pr_extra c) (xc_true c) (wb_1904 wb) Hextra).
       rewrite (date1904_value_enc (xc_pr_extra c) (xc_true c) (wb_1904 wb) Hextra).
       change (str_eqb k_workbookPr k_workbook) with false. reflexivity. }
   rewrite Hpr. rewrite (xlsx_skip rels j _ _ Hj).
@@ -888,7 +898,12 @@ Definition ex_xlsx_c : xlsx_choice :=
         mkXs [98] 0 [119; 115; 47; 97] 5 true [] [] true;
         mkXs [99] 1 [51] 1 true [] [([115], [50])] true]
        [mkXn [1%nat; 1%nat] false true [] []; mkXn [] true false [] []]
-       false true [] [Other; Text [10]].
+       false true []
+       (* the ignorable content includes what Excel 2013+ writes into the extension list: an
+          element x15:workbookPr without date1904 (before 4b4b5ee it reset the flag) *)
+       [Other; Text [10];
+        Start ([120; 49; 53; 58] ++ k_workbookPr) [([99], [49])];
+        End ([120; 49; 53; 58] ++ k_workbookPr)].
 Lemma xlsx_nonvacuous :
   xlsx_legal ex_xlsx_c ex_xlsx_wb = true /\
   xlsx_open (rels_events [] [] (xc_rels ex_xlsx_c)) (xlsx_wb_events ex_xlsx_c ex_xlsx_wb) =
